@@ -260,7 +260,21 @@ def file_level(ck, n_cases):
                 if (u, r) == ("LASF_Spec", 4):
                     continue
                 erecs.append((u, r, d, p))
-        las.vlrs.extend(VLR(*r) for r in recs)
+        if ver == "1.4" and ck.rng.random() < 0.15:
+            # EVLR payloads have no 16-bit limit
+            big = ck.rng.choice([65535, 65536, 70001])
+            erecs.append(("verif_big", 77, "large payload", bytes((i * 7) & 0xFF for i in range(big))))
+            ck.count("evlr_payload>=65535")
+        # registered extra dimensions put a known-type record (LASF_Spec, 4) into the list: it keeps its place
+        cut = ck.rng.randrange(0, len(recs) + 1) if ck.rng.random() < 0.4 else None
+        if cut is None:
+            las.vlrs.extend(VLR(*r) for r in recs)
+        else:
+            las.vlrs.extend(VLR(*r) for r in recs[:cut])
+            las.add_extra_dim(laspy.ExtraBytesParams("alpha", ck.rng.choice(["u1", "f8", "3i2"])))
+            las.vlrs.extend(VLR(*r) for r in recs[cut:])
+            ck.count("with_extra_bytes_vlr_at:%d/%d" % (cut, len(recs)))
+        ids_before = [(v.user_id, v.record_id) for v in las.vlrs]
         if ver == "1.4":
             las.evlrs = VLRList(VLR(*r) for r in erecs)
         las.x = [1.0, 2.0]
@@ -279,6 +293,11 @@ def file_level(ck, n_cases):
             return res[2]
         got_v = [canon(v) for v in back.vlrs]
         got_e = [canon(v) for v in (back.evlrs or [])]
+        if cut is not None:
+            ids_after = [(v.user_id, v.record_id) for v in back.vlrs]
+            if ids_after != ids_before:
+                ck.fail(f"VLR order changed through a file round trip: {ids_before} -> {ids_after}", dict(inp, extra_bytes_at=cut))
+            got_v = [c for c in got_v if not (c[0] == b"LASF_Spec" and c[1] == 4)]
         if got_v != expect(recs, False):
             ck.fail(f"VLR list changed through a file round trip ({len(recs)} -> {len(got_v)} records)", inp)
         if got_e != expect(erecs, True):
